@@ -666,9 +666,44 @@ func ruleValid(p *Prog, r *Report) {
 	mark := p.Func("shaping", "wrapBuffer", "markCandidateBest")
 	fBreak := p.Field("shaping", "breakOption", "breakAtRune")
 	n := 0
+	// the calls that cut a run at the candidate: cutRun itself, or a helper of the package that hands one of its parameters
+	// to cutRun as the end rune
+	type cutCall struct {
+		call *ssa.Call
+		end  ssa.Value
+	}
+	var cuts []cutCall
 	for _, c := range callsOf(pbo, cut) {
-		// end rune argument (index 3) derives from option.breakAtRune
-		if len(c.Common().Args) < 4 || !derivesFrom(c.Common().Args[3], func(v ssa.Value) bool { return fieldOf(v) == fBreak || isLoadOfField(v, fBreak) }, 0) {
+		if len(c.Common().Args) >= 4 {
+			cuts = append(cuts, cutCall{c, c.Common().Args[3]})
+		}
+	}
+	for _, b := range pbo.Blocks {
+		for _, in := range b.Instrs {
+			c, ok := in.(*ssa.Call)
+			if !ok {
+				continue
+			}
+			h := c.Common().StaticCallee()
+			if h == nil || h == cut || h.Blocks == nil || fnPkg(h) != fnPkg(cut) {
+				continue
+			}
+			for _, hc := range callsOf(h, cut) {
+				if len(hc.Common().Args) < 4 {
+					continue
+				}
+				for j, q := range h.Params {
+					if derivesFrom(hc.Common().Args[3], func(v ssa.Value) bool { return v == ssa.Value(q) }, 0) && j < len(c.Common().Args) {
+						cuts = append(cuts, cutCall{c, c.Common().Args[j]})
+					}
+				}
+			}
+		}
+	}
+	for _, cc := range cuts {
+		c := cc.call
+		// end rune argument derives from option.breakAtRune
+		if !derivesFrom(cc.end, func(v ssa.Value) bool { return fieldOf(v) == fBreak || isLoadOfField(v, fBreak) }, 0) {
 			continue
 		}
 		n++
